@@ -13,6 +13,9 @@ pub struct TokenBasedLuaGenerator<'a> {
     output: String,
     currently_commenting: bool,
     current_line: usize,
+    /// where the last token written ends in the original code, when its content was read from
+    /// the original code and nothing else (trivia included) has been written since
+    last_reference_end: Option<usize>,
 }
 
 impl<'a> TokenBasedLuaGenerator<'a> {
@@ -22,6 +25,7 @@ impl<'a> TokenBasedLuaGenerator<'a> {
             output: String::new(),
             currently_commenting: false,
             current_line: 1,
+            last_reference_end: None,
         }
     }
 
@@ -30,6 +34,7 @@ impl<'a> TokenBasedLuaGenerator<'a> {
         crate::verif_hooks::trace("push_str", string, self.current_line as i64);
         self.current_line += utils::count_new_lines(string.as_bytes());
         self.output.push_str(string);
+        self.last_reference_end = None;
     }
 
     fn write_trivia(&mut self, trivia: &Trivia) {
@@ -38,6 +43,7 @@ impl<'a> TokenBasedLuaGenerator<'a> {
         let is_comment = matches!(trivia.kind(), TriviaKind::Comment);
         #[cfg(darklua_verif)]
         crate::verif_hooks::trace("trivia", content, if is_comment { 0 } else { 1 });
+
         let is_line_comment = is_comment && is_single_line_comment(content);
         let is_multiline_comment = is_comment && !is_line_comment;
 
@@ -85,6 +91,11 @@ impl<'a> TokenBasedLuaGenerator<'a> {
                 .unwrap_or(-1),
         );
 
+        #[cfg(darklua_verif)]
+        if let Some((start, end)) = token.get_reference_range() {
+            crate::verif_hooks::trace("reference", &format!("{}-{}", start, end), 1);
+        }
+
         if !content.is_empty() {
             if self.currently_commenting {
                 self.uncomment();
@@ -96,10 +107,17 @@ impl<'a> TokenBasedLuaGenerator<'a> {
                     crate::verif_hooks::trace("pad", "", line_number as i64);
                     self.output.push('\n');
                     self.current_line += 1;
+                    self.last_reference_end = None;
                 }
             }
 
-            if space_check {
+            // a token that directly follows, in the original code, the token that has just been
+            // written from the original code needs no separator: the source had none
+            let follows_original = token
+                .get_reference_range()
+                .is_some_and(|(start, _)| self.last_reference_end == Some(start));
+
+            if space_check && !follows_original {
                 if let Some(next_character) = content.chars().next() {
                     if self.needs_space(next_character) {
                         #[cfg(darklua_verif)]
@@ -110,6 +128,7 @@ impl<'a> TokenBasedLuaGenerator<'a> {
             }
 
             self.push_str(content);
+            self.last_reference_end = token.get_reference_range().map(|(_, end)| end);
         }
 
         #[cfg(darklua_verif)]
@@ -1425,6 +1444,7 @@ impl<'a> TokenBasedLuaGenerator<'a> {
                     #[cfg(darklua_verif)]
                     crate::verif_hooks::trace("raw_space", "", 0);
                     self.output.push(' ');
+                    self.last_reference_end = None;
                 }
             }
         }
@@ -2031,6 +2051,7 @@ impl<'a> TokenBasedLuaGenerator<'a> {
         self.output.push('\n');
         self.current_line += 1;
         self.currently_commenting = false;
+        self.last_reference_end = None;
     }
 }
 
